@@ -24,7 +24,11 @@ def build_cv(spec):
 
     kind, p = spec[0], dict(spec[1])
     if "fh" in p and isinstance(p["fh"], list):
-        p["fh"] = np.array(p["fh"])
+        # the splitter's horizon in one of the accepted containers (chosen from the horizon itself, so a spec always builds the same object)
+        import pandas as pd
+        from sktime.forecasting.base import ForecastingHorizon
+        v = p["fh"]
+        p["fh"] = [np.array(v), list(v), pd.Index(v, dtype="int64"), ForecastingHorizon(list(v)), np.array(v)][(sum(v) + len(v) + int(p.get("window_length") or p.get("initial_window") or 0)) % 5]
     if kind == "sliding":
         return SlidingWindowSplitter(**p)
     if kind == "expanding":
